@@ -586,14 +586,17 @@ class IntervalTier(textgrid_tier.TextgridTier):
                     newEntryList.append(Interval(interval.start, start, interval.label))
                     # Right side of the split
                     # (the end is computed like the start of a following
-                    # entry, so that the two cannot overlap through rounding)
-                    newEntryList.append(
-                        (
-                            start + duration,
-                            interval.end + duration,
-                            interval.label,
+                    # entry, so that the two cannot overlap through rounding;
+                    # when /start/ is within a few ulps of the interval's end
+                    # the shifted remainder can round to nothing)
+                    if start + duration < interval.end + duration:
+                        newEntryList.append(
+                            (
+                                start + duration,
+                                interval.end + duration,
+                                interval.label,
+                            )
                         )
-                    )
                 elif collisionMode == constants.WhitespaceCollision.NO_CHANGE:
                     newEntryList.append(interval)
                 else:
